@@ -40,14 +40,36 @@ Proof.
   intros; reflexivity.
 Qed.
 
+(* a field name: an identifier other than Type, `_`, or `_name` *)
+Definition wf_fname (n : str) : bool :=
+  match n with
+  | [] => false
+  | c :: w => if c =? 95 then match w with [] => true | _ => wf_ident w end else wf_plain n
+  end.
+
 Definition wf_field_core (f : field) : bool :=
   match f_name f with
   | [] => true
-  | _ => f_ign f || wf_plain (f_name f)
+  | _ => wf_fname (f_name f)
   end && wf_tref (f_type f).
 Definition wf_field (o : options) (f : field) : bool := wf_field_core f && wf_comment o (f_comment f).
 
 Definition P58 : str -> Prop := hd_ok (fun c => (c =? 63) || (c =? 58)).
+
+Lemma LexTo_dep : forall w, wf_ident w = true -> LexTo (95 :: w) [KDep w] nic.
+Proof.
+  intros w Hw. apply LexTo_tok; [discriminate|]. intros tail Ht. cbn [app].
+  rewrite lex_step_us, name_ident_all by assumption. destruct w; [discriminate|reflexivity].
+Qed.
+
+Lemma LexTo_fname : forall n, wf_fname n = true -> LexTo n (toks_fname n) P58.
+Proof.
+  intros [|c w] H; [discriminate|]. unfold wf_fname, toks_fname in *. destruct (c =? 95) eqn:E.
+  - assert (c = 95) by lia. subst c. destruct w as [|d w].
+    + eapply LexTo_weaken; [apply LexTo_underscore|]. intros [|x t] Hx; [exact I|]. cbn in *. classes. lia.
+    + eapply LexTo_weaken; [now apply LexTo_dep|]. intros [|x t] Hx; [exact I|]. cbn in *. classes. lia.
+  - eapply LexTo_weaken; [now apply LexTo_plain|]. intros [|x t] Hx; [exact I|]. cbn in *. classes. lia.
+Qed.
 
 Lemma LexTo_field : forall f, wf_field_core f = true -> LexTo (print_field f) (toks_field f) nid.
 Proof.
@@ -58,9 +80,7 @@ Proof.
   - set (w := c :: nm) in *.
     apply (LexTo_app _ _ any_tail _ _ nid); [|now apply LexTo_tref|intros; exact I].
     apply (LexTo_app _ _ P58 _ _ any_tail).
-    + destruct ign.
-      * eapply LexTo_weaken; [apply LexTo_underscore|]. intros [|x t] Hx; [exact I|]. cbn in *. classes. lia.
-      * cbn [orb] in Hn. eapply LexTo_weaken; [now apply LexTo_plain|]. intros [|x t] Hx; [exact I|]. cbn in *. classes. lia.
+    + now apply LexTo_fname.
     + apply (LexTo_app _ _ any_tail [58] [KP 58] any_tail); [|apply (LexTo_prim 58); reflexivity|intros; exact I].
       destruct opt; [apply (LexTo_prim 63); reflexivity|apply LexTo_nil].
     + intros tail _. destruct opt; reflexivity.
@@ -642,6 +662,21 @@ Definition tA : tref := TApp (TName [] nA) false [].
 Definition f8_union : comb := Comb [] [] (DFunc (TName [] [102]) 1 [] (DUnion [Variant nA [] (VFields [])])).
 Definition f8_struct : comb := Comb [] [] (DFunc (TName [] [102]) 1 [] (DStruct [Field [] false false [] tA])).
 Definition f8_type_union : comb := Comb [] [] (DType (TName [] [97]) 0 [] (DUnion [Variant nA [] (VFields [])])).
+
+(* F19 (repaired in /repo by commit 2301fcd1): TL2Field.Print as it was, every ignored field written `_` *)
+Definition print_field_old (f : field) : str :=
+  (if nonempty (f_name f)
+   then (if f_ign f then [95] else f_name f) ++ (if f_opt f then [63] else []) ++ [58]
+   else []) ++ print_tref (f_type f).
+
+(* historical: the old printer wrote the deprecated field `_foo:A` like the field `_:A`; the current one keeps them apart *)
+Theorem fmt2_old_dep_name_refuted :
+  exists f f', f_name f <> f_name f' /\ wf_field_core f = true /\ wf_field_core f' = true /\
+    print_field_old f = print_field_old f' /\ print_field f <> print_field f'.
+Proof.
+  exists (Field [95; 102; 111; 111] false true [] (TApp (TName [] [65]) false [])), (Field [95] false true [] (TApp (TName [] [65]) false [])).
+  split; [discriminate|]. repeat split; vm_compute; congruence.
+Qed.
 
 (* the code before the repair: the union loop without the [single] disjunct *)
 Definition print_def_nl_old (o : options) (d : typedef) (force : bool) (isret : bool) : str * bool :=
